@@ -56,7 +56,7 @@ static int bad_index(int bnd, int count, const Model &m) {
   }
 }
 
-static void c07_gen(Tape &t, Case &c) {
+void gen_c07_case(Tape &t, Case &c) {
   Model m;
   gen_start_model(t, 5, 5, 1, true, m);
   // every entry named, and at least 2 cols / 2 rows so that lists have a valid member
@@ -380,7 +380,7 @@ void c07_run(const Case &c, Result &r) {
 }
 
 void register_c07() {
-  Property p = {"C07", "", c07_gen, c07_run, 2, 60, false};
+  Property p = {"C07", "", gen_c07_case, c07_run, 2, 60, false};
   p.crash_context = c07_context;
   p.keep_going = true;      // one probe per case: nothing to shrink, enumerate every failing cell
   register_property(p);
